@@ -45,7 +45,9 @@ pub enum Target {
 /// the input - and its lack of a data-count section - did not
 /// "loop": the new body iterates; the loop is put in front of an instruction that is already there
 /// with the positional `loop_at`, and its back edge is a `br_if` to the loop itself
-pub const BODIES: [&str; 8] = ["const", "arg", "call-other", "global", "unreachable", "scratch", "bulk", "loop"];
+/// "param-block": the new body passes a value into a block whose type (one parameter, one result)
+/// is made with `InstrSeqType::new`
+pub const BODIES: [&str; 9] = ["const", "arg", "call-other", "global", "unreachable", "scratch", "bulk", "loop", "param-block"];
 
 /// WAT of the module. `replaced`: None = original; Some((target, body, which_export)) = expected
 fn wat(v: &Variant, replaced: Option<(Target, usize, usize)>) -> String {
@@ -56,6 +58,7 @@ fn wat(v: &Variant, replaced: Option<(Target, usize, usize)>) -> String {
             2 => format!("(call ${} (local.get 0))", other),
             3 => "(global.set $g (local.get 0)) (global.get $g)".into(),
             5 => "(local i32) (local.set 1 (i32.add (local.get 0) (i32.const 1))) (i32.add (local.get 1) (local.get 0))".into(),
+            8 => "(local.get 0) (block (param i32) (result i32) (i32.const 1) (i32.add))".into(),
             6 => "(memory.init $d (i32.const 8) (i32.const 0) (i32.const 0)) (data.drop $d) (local.get 0)".into(),
             7 => "(loop $l (local.set 0 (i32.shr_u (local.get 0) (i32.const 1))) (br_if $l (local.get 0))) (local.get 0)".into(),
             _ => "(unreachable)".into(),
@@ -67,6 +70,7 @@ fn wat(v: &Variant, replaced: Option<(Target, usize, usize)>) -> String {
             2 => "(drop (call $a (i32.const 1)))".into(),
             3 => "(global.set $g (i32.const 5))".into(),
             5 => "(local i32) (local.set 0 (i32.const 3)) (global.set $g (local.get 0))".into(),
+            8 => "(i32.const 3) (block (param i32) (result i32) (i32.const 1) (i32.add)) (global.set $g)".into(),
             6 => "(data.drop $d)".into(),
             7 => "(loop $l (global.set $g (i32.shr_u (global.get $g) (i32.const 1))) (br_if $l (global.get $g)))".into(),
             _ => "(unreachable)".into(),
@@ -185,6 +189,7 @@ fn edit(orig: &[u8], v: &Variant, target: Target, body: usize) -> Result<Vec<u8>
         let fb = m.imports.get_func("env", "b").ok();
         let floc = m.exports.get_func("loc").map_err(|e| e.to_string())?;
         let scratch = if body == 5 { Some(m.locals.add(ValType::I32)) } else { None };
+        let pblock = walrus::ir::InstrSeqType::new(&mut m.types, &[ValType::I32], &[ValType::I32]);
         let mem = m.memories.iter().next().map(|x| x.id()).ok_or("no memory")?;
         let dat = m.data.iter().next().map(|x| x.id()).ok_or("no data")?;
         match target {
@@ -218,6 +223,11 @@ fn edit(orig: &[u8], v: &Variant, target: Target, body: usize) -> Result<Vec<u8>
                             l.local_get(a).i32_const(1).binop(walrus::ir::BinaryOp::I32ShrU).local_set(a).local_get(a).br_if(me);
                         });
                     }
+                    8 => {
+                        b.local_get(args[0]).block(pblock, |blk| {
+                            blk.i32_const(1).binop(walrus::ir::BinaryOp::I32Add);
+                        });
+                    }
                     _ => {
                         b.unreachable();
                     }
@@ -245,6 +255,11 @@ fn edit(orig: &[u8], v: &Variant, target: Target, body: usize) -> Result<Vec<u8>
                             let me = l.id();
                             l.global_get(g).i32_const(1).binop(walrus::ir::BinaryOp::I32ShrU).global_set(g).global_get(g).br_if(me);
                         });
+                    }
+                    8 => {
+                        b.i32_const(3).block(pblock, |blk| {
+                            blk.i32_const(1).binop(walrus::ir::BinaryOp::I32Add);
+                        }).global_set(g);
                     }
                     _ => {
                         b.unreachable();
@@ -285,6 +300,11 @@ fn edit(orig: &[u8], v: &Variant, target: Target, body: usize) -> Result<Vec<u8>
                         b.loop_at(0, None, |l| {
                             let me = l.id();
                             l.local_get(a).i32_const(1).binop(walrus::ir::BinaryOp::I32ShrU).local_set(a).local_get(a).br_if(me);
+                        });
+                    }
+                    8 => {
+                        b.local_get(args[0]).block(pblock, |blk| {
+                            blk.i32_const(1).binop(walrus::ir::BinaryOp::I32Add);
                         });
                     }
                     _ => {
@@ -355,7 +375,7 @@ pub fn plan() -> Vec<Planned> {
             targets.push(Target::ImportS);
         }
         for t in targets {
-            for body in 0..8 {
+            for body in 0..9 {
                 if (t == Target::ImportS || t == Target::ExportStart) && body == 1 {
                     continue;
                 }
@@ -370,7 +390,7 @@ pub fn plan() -> Vec<Planned> {
     for bits in 0..4u32 {
         let v = Variant { with_start: false, reexport: bits & 1 != 0, double_export: bits & 2 != 0, two_imports: false, dup_names: 0, ref_func_loc: false, declared_expr_segment: false, local_start: true };
         for t in [Target::ExportStart, Target::ExportLoc, Target::ImportA] {
-            for body in 0..8 {
+            for body in 0..9 {
                 if t == Target::ExportStart && body == 1 {
                     continue;
                 }
